@@ -85,8 +85,8 @@ PROPS["C10"] = {
 }
 
 PROPS["C05"] = {
-    "proof_files": ["Proofs/Crash.v", "Proofs/Calls.v"],
-    "gen_files": ["Gen/Calls.v"],
+    "proof_files": ["Proofs/Crash.v", "Proofs/Calls.v", "Proofs/CallsC05.v"],
+    "gen_files": ["Gen/Calls.v", "Gen/CallsC05.v"],
     "corr": ["C05"],
     "trusted_base": ["tie to the code: CORRESPONDENCE - Model/Crash.v is hand-written; hook traces of real receiver runs (chunk written / chunk marked per file, under injected flushes) must be accepted by the model's guarded step (write before mark), and at every hook point the output directory is snapshotted = the disk a SIGKILL there would leave, each snapshot checked chunk by chunk against the source with the real LoadSidecar",
                      "atomic rename(2) and 'completed syscalls survive SIGKILL' (page cache) are assumptions about the OS"],
